@@ -598,7 +598,20 @@ func (x *Exec) access(o *Object, path []Sel, write bool) {
 		x.writes[o.Name+pathKey(path)] = true
 	}
 	if x.logEvents {
-		x.events = append(x.events, AccessEvent{Obj: o, Path: pathKey(path), Write: write, Thread: x.thread})
+		// element-insensitive location for the race analysis: all indices of an array are one location
+		var sb strings.Builder
+		for _, s := range path {
+			if s.Idx != nil {
+				sb.WriteString("[*]")
+			} else {
+				fmt.Fprintf(&sb, ".%d", s.Field)
+			}
+		}
+		k := sb.String()
+		if n := len(x.events); n > 0 && x.events[n-1].Obj == o && x.events[n-1].Path == k && x.events[n-1].Write == write && x.events[n-1].Sync == "" {
+			return
+		}
+		x.events = append(x.events, AccessEvent{Obj: o, Path: k, Write: write, Thread: x.thread})
 	}
 }
 
@@ -1957,6 +1970,19 @@ func (x *Exec) builtinAppend(dst SliceV, srcv Value, c *ssa.CallCommon) Value {
 	default:
 		panic(unsupported("append of symbolic string"))
 	}
+	// in place when the spare capacity suffices (real semantics: the backing array is shared)
+	if dst.Obj != nil && dst.Obj.Kind == OPlain && dst.Cap.IsConst() && dst.Len.IsConst() && dst.Off.IsConst() &&
+		dst.Len.Int64()+int64(len(add)) <= dst.Cap.Int64() {
+		arr := dst.Obj.Val.(*ArrV)
+		base := int(dst.Off.Int64() + dst.Len.Int64())
+		if base+len(add) <= len(arr.Elems) {
+			for i, e := range add {
+				arr.Elems[base+i] = copyVal(e)
+			}
+			x.access(dst.Obj, nil, true)
+			return SliceV{Obj: dst.Obj, Off: dst.Off, Len: BVi(dst.Len.Int64()+int64(len(add)), 64), Cap: dst.Cap}
+		}
+	}
 	cur := x.sliceElems(dst, "append destination")
 	elems := make([]Value, 0, len(cur)+len(add))
 	for _, e := range cur {
@@ -1964,10 +1990,6 @@ func (x *Exec) builtinAppend(dst SliceV, srcv Value, c *ssa.CallCommon) Value {
 	}
 	for _, e := range add {
 		elems = append(elems, copyVal(e))
-	}
-	// always reallocate: aliasing through spare capacity is not modelled
-	if dst.Obj != nil && dst.Cap.IsConst() && dst.Len.IsConst() && dst.Cap.Int64() > dst.Len.Int64() && len(add) > 0 {
-		x.note("imprecise: append into spare capacity modelled as reallocation")
 	}
 	o := x.newObj("append", nil, &ArrV{Elems: elems})
 	n := BVi(int64(len(elems)), 64)
